@@ -111,6 +111,16 @@ Example C23_mixed_example :
     [[v_int]; [v_flt]; [v_flt]; [v_int; v_int]; [v_flt]; [v_int]; []; [v_int]].
 Proof. vm_compute. reflexivity. Qed.
 
+(* Value semantics: a caller changing a value object it handed in through push / extend / update /
+   the constructor, or obtained from iteration or pull, does not operate on the container (both
+   classes keep and hand out private copies of non-frozen values; for Durq after the repair of
+   D40).  The history theorems cover [CallerMutates] at any position; that the real classes behave
+   so is what the correspondence check observes. *)
+Theorem C23_caller_mutation_identity : forall pyeq (S : Type) sstep sview set q (s : S) st,
+  gstep pyeq S sstep sview set q s st CallerMutates = (s, st, Ok (ROpt None)).
+Proof. exact caller_mutation_identity. Qed.
+Print Assumptions C23_caller_mutation_identity.
+
 (* Non-vacuity: a history with duplicates, pulls, a crash point and a preloaded re-injection,
    for both kinds, satisfies the hypotheses and behaves as stated. *)
 Example C23_example :
